@@ -213,6 +213,53 @@ func ruleQuantizeGuards(w *World, r *RuleResult) {
 			return false, 0
 		}},
 	}
+	// the over/underflow pair may be tested with one mask: res&(Overflow|Underflow) != 0
+	cc := w.conditionConsts()
+	maskTest := func(c ssa.Value, bit uint64) (bool, int) {
+		b := bin(c)
+		if b == nil || (b.Op != token.NEQ && b.Op != token.EQL) {
+			return false, 0
+		}
+		for _, pair := range [][2]ssa.Value{{b.X, b.Y}, {b.Y, b.X}} {
+			and, isA := pair[0].(*ssa.BinOp)
+			z, isZ := pair[1].(*ssa.Const)
+			if !isA || !isZ || and.Op != token.AND || z.Value == nil || ci(z) != 0 {
+				continue
+			}
+			for _, o := range []ssa.Value{and.X, and.Y} {
+				if bits, isK := condBits(o); isK && bits&bit != 0 {
+					if b.Op == token.NEQ {
+						return true, 0
+					}
+					return true, 1
+				}
+			}
+		}
+		return false, 0
+	}
+	for i := range specs {
+		sp := &specs[i]
+		inner := sp.match
+		switch sp.name {
+		case "res.Overflow()":
+			sp.match = func(c ssa.Value) (bool, int) {
+				if m, e := inner(c); m {
+					return m, e
+				}
+				return maskTest(c, cc["Overflow"])
+			}
+		case "res.Underflow()":
+			sp.match = func(c ssa.Value) (bool, int) {
+				if m, e := inner(c); m {
+					return m, e
+				}
+				return maskTest(c, cc["Underflow"])
+			}
+		}
+	}
+	// path form: the tests may be branch conditions or values folded into a boolean that is branched on
+	// later (enumPaths records both as decisions of the path)
+	paths, pathsOK := enumPaths(f, 100000)
 	for _, sp := range specs {
 		key := "(*Context).Quantize | NaN under " + sp.name
 		found, ok := false, false
@@ -229,6 +276,35 @@ func ruleQuantizeGuards(w *World, r *RuleResult) {
 			good, _ := mustPassEdge(b.Succs[edge], isNaNSet, nil)
 			if good {
 				ok = true
+			}
+		}
+		if (!found || !ok) && pathsOK {
+			pFound, pOK := false, true
+			for _, p := range paths {
+				trig := false
+				for _, d := range p.Decisions {
+					if m, edge := sp.match(d.Cond); m && ((edge == 0) == d.Val) {
+						trig = true
+					}
+				}
+				if !trig {
+					continue
+				}
+				pFound = true
+				hasNaN := false
+				for _, b := range p.Blocks {
+					for _, in := range b.Instrs {
+						if isNaNSet(in) {
+							hasNaN = true
+						}
+					}
+				}
+				if !hasNaN && !w.isErrorReturn(p.Ret) {
+					pOK = false
+				}
+			}
+			if pFound {
+				found, ok = true, pOK
 			}
 		}
 		switch {
